@@ -662,7 +662,9 @@ def _prelude_train(world, pt):
 
 
 def _prelude_use(spec):
-    """Build a sibling model and *use* it (eager log_prob / gradient / sample), then drop it."""
+    """Build a sibling model and *use* it, then drop it: the gradient of log_prob and a sample are TRACED (all of
+    flowjax's python code runs, which is where process-global state would be filled; no XLA compilation), and for one
+    sibling seed in ten also compiled and executed."""
     import equinox as eqx
     import jax.numpy as jnp
     import jax.random as jr
@@ -671,14 +673,17 @@ def _prelude_use(spec):
     shape, cond_dim = zoo.model_dims(spec)
     x = jnp.linspace(-1.5, 2.5, 3 * max(1, int(np.prod(shape)))).reshape((3,) + tuple(shape))
     cond = None if not cond_dim else jnp.ones((3, cond_dim)) * 0.5
-    try:
-        eqx.filter_grad(lambda d: d.log_prob(x, cond).sum())(m)
-    except Exception:  # noqa: BLE001 - e.g. no inverse implemented: sampling direction only
-        pass
-    try:
-        m.sample(jr.PRNGKey(0), (2,), condition=None if cond is None else cond[0])
-    except Exception:  # noqa: BLE001
-        pass
+    run = (lambda f, *a: eqx.filter_jit(f)(*a)) if int(spec.get("seed", 0)) % 10 == 0 else (lambda f, *a: eqx.filter_eval_shape(f, *a))
+    if not zoo.numeric_inverse_only(spec) or spec.get("invert", True):
+        try:
+            run(eqx.filter_grad(lambda d, x, cond: d.log_prob(x, cond).sum()), m, x, cond)
+        except Exception:  # noqa: BLE001 - e.g. no inverse implemented: sampling direction only
+            pass
+    if not zoo.numeric_inverse_only(spec) or not spec.get("invert", True):
+        try:
+            run(lambda d, k, c: d.sample(k, (2,), condition=c), m, jr.PRNGKey(0), None if cond is None else cond[0])
+        except Exception:  # noqa: BLE001
+            pass
 
 
 def run_world(world):
